@@ -193,6 +193,7 @@ func init() {
 			if re.MaxSize == 0 {
 				re.Flags |= uint64(txfile.FlagUnboundMaxSize)
 			}
+			shrunkFurther := 0
 			if i%4 == 3 {
 				// an unbounded file that already extends beyond the limit it is given now
 				cfg = engine.Config{PageSize: 1024, MaxSize: 0, InitMetaArea: uint32(hr.Intn(3) * 4)}
@@ -205,6 +206,13 @@ func init() {
 				re.Flags = uint64(txfile.FlagUpdMaxSize)
 				re.Prealloc = hr.Intn(2) == 0
 				rep.count("scenario:bound-an-unbounded-file-that-is-larger", 1)
+				if k := (i / 4) % 3; k != 0 {
+					// directed: the file extends beyond the new limit and transactions with an overflow area put their
+					// overwrite / mapping / free-list pages behind the data area
+					shrunkFurther = k
+					nPages := int(re.MaxSize/1024) + 1 + hr.Intn(90)
+					prior[1].N = nPages - 6
+				}
 			}
 			directed := false
 			if i%4 == 1 {
@@ -227,7 +235,33 @@ func init() {
 				rep.count("scenario:raise-the-limit-of-a-file-with-an-overflow-area", 1)
 			}
 			var further []engine.Op
-			if directed {
+			if shrunkFurther == 1 {
+				// D18: the last data page is freed while overflow pages behind it are in use
+				further = []engine.Op{{Kind: "begin", Overflow: true, WALLimit: 1},
+					{Kind: "setfull", P: hr.Intn(1000), Seed: 1 + hr.Intn(1000)}, {Kind: "setfull", P: hr.Intn(1000), Seed: 1 + hr.Intn(1000)},
+					{Kind: "free", P: prior[1].N - 1}, {Kind: "commit"},
+					{Kind: "begin", Overflow: true, WALLimit: 3},
+					{Kind: "setfull", P: hr.Intn(1000), Seed: 1 + hr.Intn(1000)}, {Kind: "setfull", P: hr.Intn(1000), Seed: 1 + hr.Intn(1000)},
+					{Kind: "commit"}, {Kind: "verify"},
+					{Kind: "begin", Overflow: true, WALLimit: 2}, {Kind: "free", P: prior[1].N - 2},
+					{Kind: "setfull", P: hr.Intn(1000), Seed: 1 + hr.Intn(1000)}, {Kind: "commit"}, {Kind: "verify"},
+					{Kind: "reopen"}, {Kind: "verify"}}
+				rep.count("scenario:shrunk-file/free-last-page-with-overflow-area", 1)
+			} else if shrunkFurther == 2 {
+				// D17: fragmented free data pages, overflow area in use, then a transaction without overflow area
+				// grows the meta area by a contiguous region
+				a, b := 5+hr.Intn(20), 40+hr.Intn(20)
+				further = []engine.Op{{Kind: "begin", Overflow: true, WALLimit: 2},
+					{Kind: "free", P: a}, {Kind: "free", P: b},
+					{Kind: "setfull", P: hr.Intn(1000), Seed: 1 + hr.Intn(1000)}, {Kind: "setfull", P: hr.Intn(1000), Seed: 1 + hr.Intn(1000)},
+					{Kind: "setfull", P: hr.Intn(1000), Seed: 1 + hr.Intn(1000)}, {Kind: "commit"},
+					{Kind: "begin", WALLimit: 1},
+					{Kind: "setfull", P: hr.Intn(1000), Seed: 1 + hr.Intn(1000)}, {Kind: "setfull", P: hr.Intn(1000), Seed: 1 + hr.Intn(1000)},
+					{Kind: "flush"}, {Kind: "alloc", N: 1}, {Kind: "setfull", P: hr.Intn(1000), Seed: 1 + hr.Intn(1000)},
+					{Kind: "commit"}, {Kind: "verify"}, {Kind: "reopen"}, {Kind: "verify"},
+					{Kind: "begin", WALLimit: 1}, {Kind: "setfull", P: hr.Intn(1000), Seed: 1 + hr.Intn(1000)}, {Kind: "commit"}, {Kind: "verify"}}
+				rep.count("scenario:shrunk-file/contiguous-meta-growth-next-to-overflow-area", 1)
+			} else if directed {
 				further = []engine.Op{{Kind: "begin"}, {Kind: "alloc", N: 8 + hr.Intn(16)}}
 				for k := 0; k < 12; k++ {
 					further = append(further, engine.Op{Kind: "setfull", P: 1<<15 - k*3, Seed: 1 + hr.Intn(1000)})
